@@ -141,7 +141,15 @@ HomonymCases == {[content |-> << SeqP(1, "1", << El("subjectMember", T(pm, "Othe
                   base |-> T(pb, "OtherType"), dflt |-> TRUE, farother |-> TRUE] :
                     pm \in {"t", "o", ""}, pb \in {"t", "o", ""}, o \in {"before", "after"}}
 
+\* Slice "form": the form of local elements - the schema's default (qualified / XSD's default: unqualified) x the form
+\* attribute of the member (absent / qualified / unqualified) x what the member is (builtin, named type, nested in a sequence)
+FormEl(ty, fo) == IF fo = "none" THEN El("subjectMember", ty, 1, "1") ELSE [k |-> "el", n |-> "subjectMember", ty |-> ty, min |-> 1, max |-> "1", form |-> fo]
+FormCases == {[content |-> << SeqP(1, "1", IF nest THEN << SeqP(0, "1", << FormEl(ty, fo) >>), Tail1 >> ELSE << FormEl(ty, fo), Ref("t", "GlobalThing", 0, "1"), Tail1 >>) >>,
+               attrs |-> <<>>, order |-> "before"] @@ (IF unq THEN [unqualified |-> TRUE] ELSE [dummyq |-> TRUE]) :
+                 ty \in {B("string"), T("t", "OtherType"), T("o", "FarType")}, fo \in {"none", "qualified", "unqualified"}, nest \in BOOLEAN, unq \in BOOLEAN}
+
 Space == CASE Slice = "builtins" -> BuiltinCases
+           [] Slice = "form" -> FormCases
            [] Slice = "homonym" -> HomonymCases
            [] Slice = "toplevel" -> TopLevelCases
            [] Slice = "recursive" -> RecursiveCases
@@ -168,7 +176,8 @@ File2(x) == [name |-> "f2.xsd", kind |-> "xsd", tns |-> "Ufar", xmlns |-> << <<"
              items |-> << [k |-> "complex", n |-> "FarType", base |-> None,
                            content |-> << SeqP(1, "1", << El("farValue", B("string"), 1, "1") >>) >>, attrs |-> <<>>] >>
                        \o (IF "farother" \in DOMAIN x THEN <<FarOther>> ELSE <<>>)]
-SetOf(x) == [files |-> <<File1(x), File2(x)>>, start |-> "f1.xsd"]
+File1F(x) == IF "unqualified" \in DOMAIN x THEN File1(x) @@ [unqualified |-> TRUE] ELSE File1(x)
+SetOf(x) == [files |-> <<File1F(x), File2(x)>>, start |-> "f1.xsd"]
 
 MCInit == c \in Space
 MCSpec == MCInit /\ [][UNCHANGED c]_vars
